@@ -45,7 +45,7 @@ for n, (f, old, new, props) in enumerate(EDITS):
             print(n, f, 'DOES NOT COMPILE', b.stdout[:200], flush=True); continue
         out = []
         for pr in props.split():
-            r = subprocess.run(['/verif/check', pr, '--tier', 'quick'], env=dict(os.environ, VERIF_REPO=d, VERIF_NO_REPLAYER='1'), stdout=subprocess.PIPE, stderr=subprocess.STDOUT, text=True)
+            r = subprocess.run([os.path.join(os.path.dirname(os.path.dirname(os.path.dirname(os.path.abspath(__file__)))), 'check'), pr, '--tier', 'quick'], env=dict(os.environ, VERIF_REPO=d, VERIF_NO_REPLAYER='1'), stdout=subprocess.PIPE, stderr=subprocess.STDOUT, text=True)
             und = [l.strip()[:160] for l in r.stdout.split('\n') if 'UNDECIDED' in l or 'failed obligation' in l][:2]
             out.append((pr, r.returncode, und))
         bad = [o for o in out if o[1] == 1]
